@@ -70,7 +70,7 @@ _DED = {
     "C08": 'Discharged: _traverse_from / _traverse (the node reached holds exactly the keys below the consumed prefix -- view equation for an arbitrary continuation --, the remainder is a suffix of the key, a non-empty remainder lies strictly inside a leaf / extension path); annotate_node (type, sub-segments, value, suffix are the spec functions of the raw node; the branch comprehension is handled without a 2^16 case split); traverse, traverse_from and root_node: the returned annotated node is the node at that position, a TraversedPartialPath carries pieces that make up the path, the enclosing leaf / extension, a tail that runs (properly) into its path and a simulated node that is that node with the tail cut off; missing-node reports as in C07. `blank exactly when no stored key starts with the path` (needs: a non-blank canonical node holds a key) and `at most one database entry per child hop` are bounded only.',
     "C12": "Discharged: BinaryTrie._get = blk; _set: view clause for insert / delete / delete-subtrie on all paths, refusal exactly when the walk says so (brefuse), store only grows by content-addressed writes, insert never yields the blank root; get / exists / set / delete / delete_subtrie wrappers (root unchanged on refusal); every node written is canonical -- well formed, no blank child, and a kv node never directly over another kv node (store-write obligation `canonical-node` at every _hash_and_save; the store invariant assumes the same of every node read) -- so every root the trie produces denotes a canonical trie. That a canonical trie is unique for its contents (history independence, root = hash of the canonical encoding) is the Lean theorem B.lean; the two are combined outside pyvc.",
     "C13": "Discharged: unforgeability of if_branch_valid -- for an arbitrary finite list of well-formed node bodies offered as branch (the database rebuilt by the dictionary comprehension is shown to satisfy the binary store invariant) a True answer implies blk(root, bits(key)) = value, the value the root denotes; get_branch / _get_branch against their specification (the node bodies on the key's path, root first), with: a refused key (InvalidKeyError) is not stored, and the branch suffices for the lookup (in any store that has the yielded nodes the lookup finds every node it dereferences); check_if_branch_exist and get_trie_nodes against their specification functions; get_trie_nodes and _get_witness_for_key_prefix suffice for every lookup below the root / below the key prefix (in any store that has the returned bodies such a lookup finds every node it dereferences); BinaryTrie._get / get, parse_node and the node encoders. That the witness holds *only* nodes of the trie, malformed node bodies, and the reading of the specification functions as `some stored key starts with p` / `exactly the reachable nodes` (lemmas over the model) are bounded only.",
-    "C14": "Discharged for every key size and default: SparseMerkleTree._get (loop invariant: the walk follows the key bits, the branch holds the siblings root to leaf), get / branch / exists / [] / in (a blank value reads as absent), set (bottom-up loop invariant: for an arbitrary probe key the new subtree reads as the old one except at the written key; the store only grows by content-addressed writes; the tree stays well formed), delete / []= / del [] (= set with the default), __init__ (every key reads as the default, tree well formed, store content addressed), from_db (database, root, key size and default are taken over), calc_root (reproduces the root of a consistent tree). Well-formedness -- every inner node is a pair of 32-byte hashes -- is a representation invariant: assumed on entry, proved on exit of __init__ and set. set returns the new path hashes root to leaf (each the on-path child of its predecessor, the first of the new root, the last the hash of the value). Not discharged: root = Merkle root of the full depth-8*key_size tree and its history independence (Lean S.lean + bounded), and the step from `same low D bits` to `same key` (bit extensionality).",
+    "C14": "Discharged for every key size and default: SparseMerkleTree._get (loop invariant: the walk follows the key bits, the branch holds the siblings root to leaf), get / branch / exists / [] / in (a blank value reads as absent), set (bottom-up loop invariant: for an arbitrary probe key the new subtree reads as the old one except at the written key; the store only grows by content-addressed writes; the tree stays well formed), delete / []= / del [] (= set with the default), __init__ (every key reads as the default, tree well formed, store content addressed), from_db (database, root, key size and default are taken over), calc_root (reproduces the root of a consistent tree). Well-formedness -- every inner node is a pair of 32-byte hashes -- is a representation invariant: assumed on entry, proved on exit of __init__ and set. set and delete return the new path hashes root to leaf (each the on-path child of its predecessor, the first of the new root, the last the hash of the value). Not discharged: root = Merkle root of the full depth-8*key_size tree and its history independence (Lean S.lean + bounded), and the step from `same low D bits` to `same key` (bit extensionality).",
     "C15": "Discharged: SparseMerkleProof.update -- wrong key size and too-short update lists are refused before any assignment, an update of the tracked key changes only the value, any other update changes only the sibling at the first differing bit and reads only node_updates[branch_point] (bit operations through testbit / bxor, DESIGN 6.3); calc_root reproduces the root of a consistent tree from the leaf content and the siblings on the key's path. The synchronisation invariant with the tree over a stream of updates and the root_hash / branch / value properties are Lean S.lean + bounded.",
     "C16": "Discharged for all lengths: bytes_to_nibbles / nibbles_to_bytes (element-wise, array encoding) and their inverse lemmas; encode_nibbles = HP and decode_nibbles with hp_roundtrip; encode_to_bin / decode_from_bin with bits_roundtrip; key-path packing round trip (the two real functions executed back to back); encode_kv/branch/leaf_node and parse_node with every rejection case; get_node_type, extract_key, is_leaf_node, is_extension_node, compute_*_key.",
     "C17": "Discharged: every clause of the property on the six methods of ScratchDB, including the commit loop (invariant over the set of processed keys).",
